@@ -108,12 +108,14 @@ def run(chk):
     chk.rule('R1', 'exact key match wins over abbreviations regardless of definition order', 4)
     chk.rule('R2', 'bound checks / cardinalities accept exactly the documented set', 10)
     chk.rule('R3', 'values from file/environment never count against the cardinality', 7)
-    chk.rule('R4', 'constraints matched with the canonical key (no spurious "required ... is missing")', 2)
+    chk.rule('R4', 'constraints matched with the canonical key and removed for every requirer (no spurious "required ... is missing")', 6)
     c05.r2(chk, prog, rule='R1')
     c02_shapes.run(chk, prog, rule='R2')
     r3(chk, prog)
     sub = type(chk)(chk.pid, chk.tier)
     sub._known = []
     c02.r3_canonical_key(sub, prog)
+    # a requirement is fulfilled for every argument that asked for it (complete scan)
+    c02.r9_constraint_scans(sub, prog)
     for o in sub.obligations:
         chk.check(o['status'] == 'held', 'R4', o['function'], o['what'], o['where'], o.get('detail', ''))
